@@ -15,6 +15,8 @@ var checks = map[string]func(*rules.Ctx){
 	"C01": rules.C01,
 	"C04": rules.C04,
 	"C05": rules.C05,
+	"C12": rules.C12,
+	"C14": rules.C14,
 }
 
 func main() {
